@@ -970,6 +970,13 @@ def preset_twin(ctx):
                 n += 1
                 key = '%s:reset-waived-only-for-nonempty-preset' % f.key
                 conds = [cx for _, cx in control_conditions(f, bi, prov)] + [cx for _, _, cx in guards_of(f, bi, prov)]
+                # switches on enum discriminants (if let Some(..)) that decide whether the store runs
+                for sb in f.reachable:
+                    tt = f.blocks[sb]['term']
+                    if tt['k'] == 'switch' and sb != bi and f.dominates(sb, bi):
+                        succs = f.succs(sb)
+                        if any(bi not in f.reach_from([x], stop={sb}) for x in succs):
+                            conds.append(prov.operand(tt['discr'], 0, '%d:T' % sb))
                 if mentions_nonempty(f, conds):
                     ctx.ok(key, f.loc(bi, si), 'the flag is cleared under a non-emptiness test of the preset dictionary')
                 else:
